@@ -369,6 +369,7 @@ pub fn eval_history(h: &History, focus: Focus, profile: &str, full: bool) -> Cas
             "self-reference" => "family_self_reference",
             "duplicate" => "family_duplicate",
             "symmetric-user" => "family_symmetric_user",
+            "congruence-chain" => "family_congruence_chain",
             _ => "family_slot_variant",
         });
     }
